@@ -150,12 +150,46 @@ def replayer(bld):
     return rp
 def get_replayer(): return replayer(h5_build())
 
+def job_main_wiring(res):
+    """which objects main hands to the results file: the impedance stored in the file is the one the wake field was built with (so the stored wake potential is the convolution with the *stored*
+    impedance), and the field whose frequency axis / spectrum layout the file was created for is the field whose spectra are appended.  Operands of the real call instructions in main's IR."""
+    from mainsetup import call_sites
+    import mainloop
+    bld = mainloop.main_build(); mod = load_module(bld, ['main']); f = mod.funcs['main']; res.funcs['main'] = fn_lines(mod, 'main'); res.paths += 1
+    dm = mainloop.demangle(set(mod.decls) | set(mod.funcs))
+    def mod_demangle(n): return dm.get(n, n)
+    def copy_source(blk, upto, tmp, what):
+        # the temporary is filled by std::shared_ptr's copy constructor right before the call: its second operand is the object copied
+        for ins in f.blocks[blk][:upto][::-1]:
+            if ins['op'] in ('call', 'invoke') and ins['callee'][0] == 'global' and ins['args'] and ins['args'][0][1] == tmp:
+                nm = mod_demangle(ins['callee'][1])
+                if 'shared_ptr' in nm and len(ins['args']) == 2: return ('copy of', ins['args'][1][1])
+                return ('result of', nm.split('(')[0], tuple(str(a[1]) for a in ins['args'][1:]))      # filled by some other call (a getter returning by value, ...)
+        raise Unsupported('cannot tell where main takes the %s from (no shared_ptr copy into the call\'s temporary)' % what)
+    h5 = call_sites(mod, f, 'vfps::HDF5File::HDF5File(')
+    if len(h5) != 1: raise Unsupported('expected one construction of the results file in main, found %d' % len(h5))
+    hb, hk, hins = h5[0]
+    efs = [c for c in call_sites(mod, f, 'vfps::ElectricField::ElectricField(') if len(c[2]['args']) >= 10]
+    if len(efs) != 1: raise Unsupported('expected one construction of the wake field (delegating constructor) in main, found %d' % len(efs))
+    eb, ek, eins = efs[0]
+    s_file = copy_source(hb, hk, hins['args'][4][1], 'impedance of the results file'); s_wake = copy_source(eb, ek, eins['args'][2][1], 'impedance of the wake field')
+    ok = s_file == s_wake
+    res.obs.append(Ob('main stores in the results file the impedance object the wake field is built with (both calls receive copies of the same shared_ptr)', 'holds' if ok else 'violated', key='file-impedance-object',
+                      detail='' if ok else 'file: copy of %s, wake field: copy of %s' % (s_file, s_wake), cex=None if ok else {'replay': 'structural', 'file': str(s_file), 'wake': str(s_wake)}))
+    rd = hins['args'][3][1]
+    app = [c for c in call_sites(mod, f, 'vfps::HDF5File::append(vfps::ElectricField const*')]
+    csr = [c for c in call_sites(mod, f, 'vfps::ElectricField::updateCSR(')]
+    okr = bool(app) and all(c[2]['args'][1][1] == rd for c in app) and bool(csr) and all(c[2]['args'][0][1] == rd for c in csr)
+    res.obs.append(Ob('the field whose frequency axis the file is created with is the field whose CSR spectrum is updated and appended (%d append sites, %d update sites)' % (len(app), len(csr)), 'holds' if okr else 'violated', key='file-field-object',
+                      cex=None if okr else {'replay': 'structural'}))
+
 def main(tier):
     chk = Check('C10', tier, '4/C10')
     bld = h5_build()
     cfgs = [(4, 1, 8, 2), (4, 2, 12, 2)] if tier == 'quick' else [(4, 1, 8, 2), (4, 2, 12, 2), (5, 3, 20, 3), (6, 1, 9, 1), (3, 2, 8, 0)]
     jobs = [(job_layout, c) for c in cfgs] + [(job_append, c) for c in cfgs]
     import mainloop, c09, c06, c07
+    jobs += [(job_main_wiring, ())]
     jobs += mainloop.jobs_for('C10', tier)
     import preloop
     jobs += [(preloop.job_preloop, ('C10',)), (preloop.job_rw_sets, ())]      # the first record of a run started from a results file: everything it stores was recomputed from the loaded grid
